@@ -207,6 +207,11 @@ type SchemaComponent struct {
 
 	IsWriteJSONFuncOneOf bool
 	OneOfStructure       OneOfStructure
+
+	// IsTimeComponent: a date / date-time component (`type X time.Time`): the
+	// defined type gets JSON methods of its own.
+	IsTimeComponent bool
+	TimeType        DateTime
 }
 
 func NewSchemaComponent(name string, schema Schema, cs Componenter, cfg Config) SchemaComponent {
@@ -249,6 +254,11 @@ func NewSchemaComponent(name string, schema Schema, cs Componenter, cfg Config) 
 	case OneOfStructure:
 		sc.IsWriteJSONFuncOneOf = true
 		sc.OneOfStructure = schema
+	case Primitive:
+		if dt, ok := schema.PrimitiveIface.(DateTime); ok {
+			sc.IsTimeComponent = true
+			sc.TimeType = dt
+		}
 	}
 
 	return sc
@@ -290,6 +300,9 @@ func (s SchemaComponent) Render() (string, error) {
 
 		IsWriteJSONFuncOneOf bool
 		OneOfStructure       OneOfStructure
+
+		IsTimeComponent bool
+		TimeType        DateTime
 	}{
 		Schema: s.Schema,
 
@@ -312,6 +325,9 @@ func (s SchemaComponent) Render() (string, error) {
 
 		IsWriteJSONFuncOneOf: s.IsWriteJSONFuncOneOf,
 		OneOfStructure:       s.OneOfStructure,
+
+		IsTimeComponent: s.IsTimeComponent,
+		TimeType:        s.TimeType,
 	})
 }
 
